@@ -1495,6 +1495,10 @@ func freshKeyBuf(r *engine.Run, rule string) {
 							walk(e)
 						}
 					}
+					// append(x[:n], ...) writes into x's array (a full slice expression x[:n:n] cannot)
+					if sl, ok := v.(*ssa.Slice); ok && sl.Max == nil {
+						walk(sl.X)
+					}
 				}
 				walk(c.Call.Args[0])
 			}
@@ -1528,7 +1532,12 @@ func freshKeyBuf(r *engine.Run, rule string) {
 				return
 			}
 			b, fld, isF := loadOfField(ld)
-			if !isF || fld != "key" || !isNamedPtr(b.Type(), "shortNode") {
+			isKey := isF && fld == "key" && isNamedPtr(b.Type(), "shortNode")
+			// a leaf's value bytes are the caller's slice (Put stores it as given) and are
+			// shared by every leaf created from it: rewriting them in place changes other
+			// leaves behind their cached hashes
+			isVal := isF && fld == "value" && isNamedPtr(b.Type(), "valueNode")
+			if !isKey && !isVal {
 				return
 			}
 			n++
@@ -1565,6 +1574,11 @@ func freshKeyBuf(r *engine.Run, rule string) {
 				}
 			}
 			follow(ld)
+			if isVal {
+				r.Check(bad == "", rule, o.next(fn(f)+"|value read"), r.P.Pos(ld.Pos()), "the leaf's value bytes are read or replaced, never appended onto",
+					"a leaf's value bytes "+bad+": the slice is the one the caller handed to Put and may be held by other leaves created from it, so the append rewrites the caller's memory and the content of those leaves behind their cached hashes - the source trie and a partial trie decoded from its export stop agreeing")
+				return
+			}
 			r.Check(bad == "", rule, o.next(fn(f)+"|key read"), r.P.Pos(ld.Pos()), "the node's key is copied or compared, never appended onto",
 				"a node's key "+bad+": keys of neighbouring nodes are slices of one array (a split gives the upper node key[:p] and the leaf key[p+1:]), so the append writes into the other node's key - ownership queries name a key that does not exist and a later update of the real key adds a duplicate entry")
 		})
